@@ -62,7 +62,9 @@ let () =
           Printf.printf "%s %s ## %s\n" id (String.concat " " prop) (String.concat " " intl)
       | [id; "W"; cap; ops] ->
           let cap = nat_of_int (int_of_string cap) in
+          let fails = List.map (fun o -> o.[0] = 'x') (split_on ',' ops) in
           let ops = List.map (fun o ->
+              let o = if o.[0] = 'x' then String.sub o 1 (String.length o - 1) else o in
               match o.[0] with
               | 'a' | 'b' | 'c' | 'd' ->   (* b, c, d: the same bytes handed over through a uint16_t / uint32_t / double pointer *)
                   WAppend (bytes_of_hex (String.sub o 1 (String.length o - 1)))
@@ -72,8 +74,9 @@ let () =
           let rec go b sk ops acc_p acc_i =
             match ops with
             | [] -> (List.rev acc_p, List.rev acc_i)
-            | o :: rest ->
-                let ((outs, b'), sk') = wb_run b sk [o] in
+            | (o, fl) :: rest ->
+                (* x<op>: the sink throws on the first write of this operation (Buffers/WFail.v) *)
+                let (((outs, b'), sk'), _) = wb_run_f b sk [(o, not fl)] in
                 let nold = List.length sk in
                 let delta = List.filteri (fun i _ -> i >= nold) sk' in
                 let p = match outs with
@@ -85,7 +88,7 @@ let () =
                 (match outs with
                  | [WFault _] -> (List.rev (p :: acc_p), List.rev (i :: acc_i))
                  | _ -> go b' sk' rest (p :: acc_p) (i :: acc_i)) in
-          let (prop, intl) = go (wb_init cap) [] ops [] [] in
+          let (prop, intl) = go (wb_init cap) [] (List.combine ops fails) [] [] in
           Printf.printf "%s %s ## %s\n" id (String.concat " " prop) (String.concat " " intl)
       | _ -> ()
     done
